@@ -74,9 +74,7 @@ Definition spec (o : op) (s : st) : st * res :=
       | Some x => (s, [vid x; b2z (negb (vid x =? vid e))])
       | None => (set k e s, [vid e; 0])
       end
-  | SweepNext (Some k) now _ =>
-      (s, [match get k s with Some x => b2z (is_expired x now) | None => -2 end])
-  | SweepNext None _ flag => (s, [b2z flag])
+  | SweepNext _ _ flag => (s, [b2z flag])
   (* the sweep removes the entry it examined only if it is still there and expired *)
   | SweepDel k e now | SweepDelKey k e now =>
       match get k s with
@@ -84,6 +82,11 @@ Definition spec (o : op) (s : st) : st * res :=
       | None => (s, [0])
       end
   | SweepDelFail => (s, [0])
+  | Extend k i vu =>
+      match get k s with
+      | Some x => if vid x =? i then (set k (i, vu) s, []) else (s, [])
+      | None => (s, [])
+      end
   end.
 
 (* ------------------------------------------------------------------------ *)
